@@ -44,7 +44,7 @@ CGet == /\ IsEvent("CacheGet")
 COpen == TOpen /\ lastput' = <<>> /\ UNCHANGED keytab
 CReset == TReset /\ lastput' = <<>> /\ keytab' = {}
 CNext == \/ CReset \/ COpen \/ CKeyOf \/ CPut \/ CGet
-         \/ ((TDict \/ TPlant \/ TNewWriter \/ TDropWriter \/ TAddRows \/ TConcAddRows \/ TFlush \/ TClose \/ TSchema \/ TExec \/ TIndexMetrics \/ TNewQuery \/ TExecQ)
+         \/ ((TDict \/ TPlant \/ TNewWriter \/ TDropWriter \/ TAddRows \/ TConcAddRows \/ TFlush \/ TFlushOverlap \/ TClose \/ TSchema \/ TExec \/ TIndexMetrics \/ TNewQuery \/ TExecQ)
              /\ UNCHANGED <<keytab, lastput>>)
 CSpec == CInit /\ [][CNext]_cvars
 =============================================================================
